@@ -1,5 +1,6 @@
 import MuscleModel.Engines.Filter
 import MuscleModel.Engines.Msg
+import MuscleModel.Engines.Parse
 import MuscleModel.Engines.Pulse
 import MuscleModel.Engines.Queue
 import MuscleModel.Engines.RWMutex
@@ -21,6 +22,7 @@ partial def loop (h : IO.FS.Stream) (out : IO.FS.Stream) (e : Engine) (s : e.σ)
 def engines : List (String × Engine) := [
   ("qf", FilterEngine.engine),
   ("msg", MsgEngine.engine),
+  ("parse", ParseEngine.engine),
   ("pn", PulseEngine.engine),
   ("q", QueueEngine.engine),
   ("rw", RWEngine.engine),
